@@ -23,10 +23,10 @@ class Deadlock(Exception):
 
 
 class Scheduler:
-    def __init__(self, preemptions=None, line_mode=False, repo='/repo', random_switch=None):
+    def __init__(self, preemptions=None, line_mode=False, repo=None, random_switch=None):
         self.preempt = dict(preemptions or {})
         self.line_mode = line_mode
-        self.repo = os.path.join(repo, 'vakt')
+        self.repo = os.path.join(repo or os.environ.get('VAKT_REPO', '/repo'), 'vakt')
         self.memory_py = os.path.join(self.repo, 'storage', 'memory.py')
         self.random_switch = random_switch        # (rng, probability) for random deep schedules
         self.step = 0
